@@ -39,6 +39,10 @@ DEFS = {  # name placeholder {n}; each binds exactly {n} in the scope it is writ
     "from import as": "from pkg import thing as {n}",
 }
 CLASS_ONLY = {
+    "async property": '@property\nasync def {n}(self):\n    """Doc of {n}."""',
+    "cached property": "@functools.cached_property\ndef {n}(self): ...",
+    "static method": "@staticmethod\ndef {n}(a): ...",
+    "async static method": "@staticmethod\nasync def {n}(a): ...",
     "property": '@property\ndef {n}(self):\n    """Doc of {n}."""\n    return 1',
     "init attributes": 'def __init__(self, p):\n    self.{n} = p\n    """Doc of {n}."""\n    if p:\n        self.{n}_c = 1\n    self.other.thing = 2',
 }
@@ -319,6 +323,10 @@ def corpus(thorough: bool) -> list[tuple[str, str]]:
                 continue
             second = CONTEXTS[second_ctx].format(body=t2.format(n="x"), ind=_indent(t2.format(n="x"), 4), ind2="")
             out.append((f"twice|{d1} then {d2} ({second_ctx})", '"""Module doc."""\nfrom typing import TYPE_CHECKING\n' + t1.format(n="x") + "\n" + second + "\n"))
+    # two different names one after the other in a class body: what the second one becomes does not depend on the first
+    seq = {**{k_: v_ for k_, v_ in DEFS.items() if k_ in ("function", "async function", "decorated function", "class", "assignment")}, **{k_: v_ for k_, v_ in CLASS_ONLY.items() if k_ != "init attributes"}}
+    for (d1, t1), (d2, t2) in itertools.product(seq.items(), repeat=2):
+        out.append((f"sequence|{d1} then {d2}", render("top level", t1.format(n="x") + "\n" + t2.format(n="y"), in_class=True)))
     # instance attributes re-assigned in __init__ (plain and conditional), with and without a class-level definition
     head = '"""Module doc."""\nfrom typing import TYPE_CHECKING\nclass Outer:\n'
     for first, (cname, ctx_t) in itertools.product(("class level", "in __init__", "none"), [(c, t) for c, t in CONTEXTS.items() if c in ("top level", "if body", "else branch", "except handler", "try body", "with block")]):
